@@ -990,3 +990,15 @@ Definition stamp_paths (name : string) (f : tstate) : list (path * scalar) :=
 (** the leaves a subscription selects *)
 Definition selects (q : path) (l : list (path * scalar)) : list (path * scalar) :=
   filter (fun pv => is_prefix q (fst pv)) l.
+
+Definition glob_free (p : path) : bool := forallb (fun e => negb (is_glob e)) p.
+
+(** the state keys the updates of one stream message write *)
+Definition upd_keys (it : item) : list path :=
+  match it with ISync => [] | IUpd n => map (fun u => tkey (n_prefix n) (fst u)) (n_updates n) end.
+
+Definition item_prefix_origin (it : item) : string :=
+  match it with
+  | IUpd n => match n_prefix n with Some g => g_origin g | None => "" end
+  | ISync => ""
+  end.
